@@ -282,8 +282,18 @@ func (r *renderer) unitCase(c byte) byte {
 
 // spellLabel writes one label; mostly canonical, sometimes with \DDD or \c re-spellings.
 func (r *renderer) spellLabel(l []byte) string {
-	if r.o.Plain || r.n(8) != 7 {
+	mode := r.n(8)
+	if r.o.Plain || mode < 6 {
 		return wm.EscLabel(l)
+	}
+	if mode == 6 {
+		// every octet as \DDD: four characters per octet
+		r.use("label-all-ddd")
+		var sb strings.Builder
+		for _, b := range l {
+			fmt.Fprintf(&sb, "\\%03d", b)
+		}
+		return sb.String()
 	}
 	r.use("label-respelled")
 	var sb strings.Builder
